@@ -12,7 +12,7 @@ import keyword
 from pathlib import Path
 
 SRC = Path("/repo/src/pyopenapi_gen")
-OUT = Path("/verif/coq/Gen/Tables.v")
+OUT = Path(__file__).resolve().parent.parent / "coq" / "Gen" / "Tables.v"
 
 
 class TranslatorError(Exception):
@@ -131,14 +131,30 @@ def render() -> str:
     return "\n".join(lines)
 
 
-def regenerate() -> bool:
-    """Rewrite Gen/Tables.v if its content changed.  Returns True if rewritten."""
-    text = render()
-    if OUT.exists() and OUT.read_text() == text:
+def write_if_changed(path: Path, text: str) -> bool:
+    if path.exists() and path.read_text() == text:
         return False
-    OUT.parent.mkdir(parents=True, exist_ok=True)
-    OUT.write_text(text)
+    path.parent.mkdir(parents=True, exist_ok=True)
+    path.write_text(text)
     return True
+
+
+def regenerate() -> bool:
+    """Rewrite Gen/Tables.v (and every Gen/T_Cxx.v produced by a harness/tables_Cxx.py plug-in, each of which
+    exports `render() -> str` and `OUT_NAME`) if the content changed.  Returns True if anything was rewritten.
+    Plug-ins raise TranslatorError (import it from this module) to fail closed."""
+    import importlib
+    changed = write_if_changed(OUT, render())
+    for plug in sorted(Path(__file__).resolve().parent.glob("tables_C*.py")):
+        mod = importlib.import_module(plug.stem)
+        try:
+            text = mod.render()
+        except TranslatorError:
+            raise
+        except Exception as e:  # any unexpected shape = fail closed
+            raise TranslatorError(f"{plug.name}: {type(e).__name__}: {e}")
+        changed |= write_if_changed(OUT.parent / mod.OUT_NAME, text)
+    return changed
 
 
 if __name__ == "__main__":
